@@ -53,7 +53,7 @@ func gen1(t *rapid.T) Case {
 	c.Class = gen.ClassExpr(t, cfg, 3)
 	fix(c.Class, c)
 	if c.RE2 && rapid.IntRange(0, 1).Draw(t, "posix") == 0 {
-		c.Class.Items = append(c.Class.Items, cls.Item{Kind: cls.Posix, Name: rapid.SampledFrom([]string{"alnum", "alpha", "ascii", "blank", "cntrl", "digit", "graph", "lower", "print", "punct", "space", "upper", "word", "xdigit"}).Draw(t, "posixname"), Neg: !c.I && rapid.IntRange(0, 3).Draw(t, "posneg") == 0})
+		c.Class.Items = append(c.Class.Items, cls.Item{Kind: cls.Posix, Name: rapid.SampledFrom([]string{"alnum", "alpha", "ascii", "blank", "cntrl", "digit", "graph", "lower", "print", "punct", "space", "upper", "word", "xdigit"}).Draw(t, "posixname"), Neg: rapid.IntRange(0, 3).Draw(t, "posneg") == 0})
 	}
 	if c.I && !c.Class.Neg && rapid.IntRange(0, 5).Draw(t, "complementstyle") == 0 {
 		// "everything but a small gap", written positively: canonicalisation stores it as the negated gap.
@@ -79,10 +79,6 @@ func fix(e *cls.Expr, c Case) {
 		it := &e.Items[i]
 		if c.I && it.Kind == cls.Prop && it.Neg && (it.Name == "Lu" || it.Name == "Ll" || it.Name == "Lt") {
 			it.Neg = false
-		}
-		if c.I && (c.RE2 || c.ECMA) && it.Kind == cls.Short && it.Name[0] < 'a' {
-			// \D \W \S are ranges up to U+10FFFF in these dialects: outside the IgnoreCase domain of the property
-			it.Name = string(it.Name[0] | 0x20)
 		}
 		if c.I && it.Kind == cls.Range && (it.Lo > 0x7f || it.Hi > 0x7f) {
 			// ranges keep ASCII endpoints under IgnoreCase
@@ -186,6 +182,9 @@ func orbitOK(r rune) bool {
 	n := 1
 	for c := unicode.SimpleFold(r); c != r; c = unicode.SimpleFold(c) {
 		n++
+	}
+	if n == 1 && (unicode.ToLower(r) != r || unicode.ToUpper(r) != r) {
+		return false // cased without a simple fold partner (U+0130, U+0131): not a plain pair
 	}
 	return n <= 2
 }
